@@ -121,7 +121,8 @@ func stableConds(fl *Flow) []string {
 		if !ok {
 			continue
 		}
-		byText[exprText(e)] = append(byText[exprText(e)], occ{e, e.Pos()})
+		core, _ := condCore(e)
+		byText[core] = append(byText[core], occ{e, e.Pos()})
 	}
 	var out []string
 	for txt, os := range byText {
@@ -209,11 +210,12 @@ func mustPassSplit(fl *Flow, pass func(ast.Node) bool) pathResult {
 			if !ok {
 				return true
 			}
-			v, ok := val[exprText(e)]
+			core, neg := condCore(e)
+			v, ok := val[core]
 			if !ok {
 				return true
 			}
-			return v == (succ == 0)
+			return (v != neg) == (succ == 0)
 		}
 		if res := fl.MustPass(pass); res.Found {
 			worst = res
@@ -224,6 +226,21 @@ func mustPassSplit(fl *Flow, pass func(ast.Node) bool) pathResult {
 }
 
 func exprText(e ast.Expr) string { return types.ExprString(e) }
+
+// condCore strips negations: the text of the condition without leading "!" and whether an odd number was stripped.
+func condCore(e ast.Expr) (string, bool) {
+	neg := false
+	for {
+		e = ast.Unparen(e)
+		u, ok := e.(*ast.UnaryExpr)
+		if !ok || u.Op != token.NOT {
+			break
+		}
+		neg = !neg
+		e = u.X
+	}
+	return types.ExprString(e), neg
+}
 
 func init() {
 	register("C16",
@@ -323,12 +340,31 @@ func init() {
 						return true
 					})
 				}
-				bodyRestarts := func(body ast.Node) bool {
+				// local closures of the function (`restart := func() {…}`): a call of one is a call of its body
+				localLits := map[types.Object]*ast.FuncLit{}
+				ast.Inspect(f.Body(), func(x ast.Node) bool {
+					if as, ok := x.(*ast.AssignStmt); ok && len(as.Lhs) == len(as.Rhs) {
+						for i, rh := range as.Rhs {
+							if fl, ok := ast.Unparen(rh).(*ast.FuncLit); ok {
+								if o := identObj(info, as.Lhs[i]); o != nil {
+									localLits[o] = fl
+								}
+							}
+						}
+					}
+					return true
+				})
+				var bodyRestartsD func(body ast.Node, depth int) bool
+				bodyRestartsD = func(body ast.Node, depth int) bool {
 					hit := false
 					ast.Inspect(body, func(x ast.Node) bool {
 						if c, ok := x.(*ast.CallExpr); ok && !hit {
 							if fn := p.Callee(f.Pkg, c); fn != nil {
 								if fn.Origin() == reset || restarts[p.FnOfObj(fn)] {
+									hit = true
+								}
+							} else if fl := localLits[identObj(info, c.Fun)]; fl != nil && depth < 2 {
+								if bodyRestartsD(fl.Body, depth+1) {
 									hit = true
 								}
 							}
@@ -337,6 +373,7 @@ func init() {
 					})
 					return hit
 				}
+				bodyRestarts := func(body ast.Node) bool { return bodyRestartsD(body, 0) }
 				seenOp := map[string]ast.Node{}
 				okOp := map[string]bool{}
 				ast.Inspect(f.Body(), func(x ast.Node) bool {
